@@ -71,6 +71,7 @@ impl DbPool {
     }
 
     pub(crate) async fn add_db(&self, owner: &str, db: &str, db_type: DbKind) -> ServerResult<u64> {
+        validate_db_name(db)?;
         let db_path = Path::new(&self.config.data_dir).join(owner).join(db);
         let path = db_path.to_str().ok_or(ErrorCode::DbInvalid)?.to_string();
 
@@ -281,6 +282,7 @@ impl DbPool {
         new_owner: &str,
         new_db: &str,
     ) -> ServerResult {
+        validate_db_name(new_db)?;
         let target_file = db_file(new_owner, new_db, &self.config);
 
         if std::fs::exists(&target_file)
@@ -411,6 +413,7 @@ impl DbPool {
         new_owner: &str,
         new_db: &str,
     ) -> ServerResult {
+        validate_db_name(new_db)?;
         let target_name = db_file(new_owner, new_db, &self.config);
 
         if target_name.exists() {
@@ -645,6 +648,25 @@ fn db_not_found(owner: &str, db: &str) -> ServerError {
         StatusCode::NOT_FOUND,
         &format!("db not found: {owner}/{db}"),
     )
+}
+
+// A db name becomes a file name inside the owner's directory (the db file,
+// its `.{db}` write ahead log, `backups/{db}.bak|.log`, `audit/{db}.log`) so
+// it must be a single path component that cannot clash with any of these.
+fn validate_db_name(db: &str) -> ServerResult {
+    if db.is_empty()
+        || db.starts_with('.')
+        || db == "backups"
+        || db == "audit"
+        || db.contains(['/', '\\', '\0'])
+    {
+        return Err(ServerError::new(
+            ErrorCode::DbInvalid.into(),
+            &format!("{}: invalid db name '{db}'", ErrorCode::DbInvalid.as_str()),
+        ));
+    }
+
+    Ok(())
 }
 
 fn backup_path(owner: &str, db: &str, db_type: DbKind, config: &Config) -> PathBuf {
